@@ -590,3 +590,43 @@ def orthogonal_complement_general_forms(tier, rng, rep):
         rep.case(key=(t,), nontrivial=kind != 3, sample=inp if t == 0 else None)
         if len(rep.failures) >= 3:
             return
+
+
+@bounded(P, "forms_close_to_the_standard_ones", functions=[U + "apply_bilinear", U + "normsq", U + "normalize", U + "projection", U + "indefinite_orthogonalize", U + "find_isometry", U + "orthogonal_complement"],
+         note="forms within 1e-9 .. 1e-4 of the identity / of diag(-1,1,..,1) but not equal to them: the orthonormalisation is with respect to the GIVEN form, to rounding accuracy "
+              "(a routine that silently substitutes the standard form is off by the size of the perturbation)")
+def forms_close_to_the_standard_ones(tier, rng, rep):
+    N = 80 if tier == 'thorough' else 20
+    rep.rule = "m = 2..6; B = S + E with S the identity or a Minkowski form and E diagonal or symmetric of size 1e-9, 1e-7, 8e-6, 1e-4; k = 2..m rows; indefinite_orthogonalize, find_isometry (k < m), orthogonal_complement; tolerance 1e-11"
+    rep.bound = f"{N} forms x 4 sizes"
+    for t in range(N):
+        m = int(rng.integers(2, 7)); k = int(rng.integers(2, m + 1))
+        S = np.identity(m) if t % 2 == 0 else np.diag([-1.0] + [1.0] * (m - 1))
+        while True:
+            X = rng.normal(size=(k, m))
+            G = X @ S @ X.T
+            if np.all(np.abs([np.linalg.det(G[:j, :j]) for j in range(1, k + 1)]) > 0.15):
+                break
+        for eps in (1e-9, 1e-7, 8e-6, 1e-4):
+            E_ = np.diag(rng.uniform(-1, 1, m)) if t % 4 < 2 else (lambda Z: (Z + Z.T) / 2)(rng.uniform(-1, 1, size=(m, m)))
+            B = S + eps * E_
+            inp = {"form": B.tolist(), "rows": X.tolist(), "perturbation_size": eps}
+
+            def body():
+                R_ = np.asarray(utils.indefinite_orthogonalize(B.copy(), X.copy()), dtype=float)
+                Gr = R_ @ B @ R_.T
+                dg = np.diag(Gr)
+                if not np.all(np.abs(Gr - np.diag(dg)) <= 1e-11 * (1 + np.max(np.abs(R_)) ** 2)) or not np.all(np.abs(np.abs(dg) - 1) <= 1e-11 * (1 + np.max(np.abs(R_)) ** 2)):
+                    rep.fail("rows_orthonormal_for_the_given_form", f"perturbation {eps:g}: R B R^T deviates from diag(+-1) by {max(np.max(np.abs(Gr - np.diag(dg))), np.max(np.abs(np.abs(dg) - 1))):.2e}", inp); return
+                if k < m:
+                    M = np.asarray(utils.find_isometry(B.copy(), X.copy(), False), dtype=float)
+                    Gm = M @ B @ M.T
+                    if not np.all(np.abs(Gm - np.diag(np.diag(Gm))) <= 1e-10 * (1 + np.max(np.abs(M)) ** 2)) or not np.all(np.abs(np.abs(np.diag(Gm)) - 1) <= 1e-10 * (1 + np.max(np.abs(M)) ** 2)):
+                        rep.fail("find_isometry_preserves_form", f"perturbation {eps:g}: M B M^T deviates from diag(+-1) by {np.max(np.abs(np.abs(Gm) - np.identity(m))):.2e}", inp); return
+                    C = np.asarray(utils.orthogonal_complement(X.copy(), B.copy()), dtype=float)
+                    if not np.all(np.abs(X @ B @ C.T) <= 1e-10 * (1 + np.max(np.abs(X)) * np.max(np.abs(C)))):
+                        rep.fail("complement_orthogonal_to_the_rows", f"perturbation {eps:g}", inp); return
+            rep.attempt("orthogonalize_runs", inp, body)
+            rep.case(key=(t, eps), nontrivial=True, sample=inp if (t, eps) == (0, 8e-6) else None)
+            if len(rep.failures) >= 3:
+                return
